@@ -399,6 +399,9 @@ func parseOp(op string) (p parsed, err error) {
 		return p, fmt.Errorf("bad op %q", op)
 	}
 	name, dir := ws[0], ws[1]
+	if dir == "lrt" || dir == "lhash" {
+		return parseLargeOp(ws)
+	}
 	switch {
 	case name == "radix" && dir == "rt" && len(ws) == 4:
 		b, err1 := parseInt(ws[2])
